@@ -17,6 +17,7 @@ R06.10 block wrapping at exact multiples of the line width: no writer helper tak
 R06.11 reading back what was written needs the bytes decoded as they were encoded: in util.io.open_ (i) a caller's explicit `encoding` is used -- the ...
 R06.8 labels are preserved verbatim by the block-format parsers (PAML, PHYLIP, Clustal): the first element of every yielded record does not derive -- along ...
 R06.9 GenBank bytes parser: records are split on the line-anchored terminator b'<newline>//'; because that separator begins with the newline of the previous line, ...
+R06.12 a PAML record's name is the whole name line (no content-dependent cut on the slice of the yielded name); R06.7 also covers the record layout of the GDE and PAML writers.
 """
 
 from __future__ import annotations
